@@ -440,7 +440,8 @@ impl Format for Mpq {
                     rec.note("mpq_bytes_read", d.len() as u64);
                 }
             }
-            for e in listed.iter().take(if crate::thorough() { 8 } else { 3 }) {
+            // quick: every listed entry only on the unmodified seed, the first entry on deviated inputs
+            for e in listed.iter().take(if crate::thorough() || input == &seed.bytes[..] { 8 } else { 1 }) {
                 if let Some((hi, bi)) = e.table_indices {
                     let _ = rec.leaf("Archive::read_file_by_indices", || a.read_file_by_indices(hi, bi));
                 }
